@@ -33,11 +33,6 @@ enum Step {
     Sleep(u64),
 }
 
-fn two_sets_or_a_only(two_sets: bool) -> bool {
-    // the failing writer belongs to set a; with two sets set b still gets every event, so nothing is exempt there
-    !two_sets
-}
-
 fn markers_in(data: &[u8]) -> Vec<String> {
     let mut out = Vec::new();
     let mut i = 0;
@@ -417,10 +412,12 @@ impl Engine for FileE2e {
         }
         let cl = clog.lock().unwrap();
         if why.is_none() {
-            let all: Vec<String> = cl
+            let all: Vec<String> = cl.emitted.iter().map(|(i, _)| format!("MK{:06}KM", i + 1)).collect();
+            // events the (failing) custom writer of set a refuses: they are discarded there, by design
+            let failed_a: BTreeSet<String> = cl
                 .emitted
                 .iter()
-                .filter(|(i, _)| !(writer_kind == 5 && two_sets_or_a_only(two_sets) && *i % 3 == 1))
+                .filter(|(i, _)| writer_kind == 5 && *i % 3 == 1)
                 .map(|(i, _)| format!("MK{:06}KM", i + 1))
                 .collect();
             // C07: flush true => everything emitted before it is written AND synced, in every set
@@ -430,7 +427,7 @@ impl Engine for FileE2e {
                 }
                 out.probe("flush_returned_true");
                 for m in all.iter().take(*n_before) {
-                    let missing_a = !da.contains(m);
+                    let missing_a = !da.contains(m) && !failed_a.contains(m);
                     let missing_b = two_sets && !db.contains(m);
                     if missing_a || missing_b {
                         out.violate(
@@ -492,7 +489,7 @@ impl Engine for FileE2e {
                 if exempt.contains(m) {
                     continue;
                 }
-                if !fa.contains(m) || (two_sets && !fb.contains(m)) {
+                if (!fa.contains(m) && !failed_a.contains(m)) || (two_sets && !fb.contains(m)) {
                     out.violate(
                         "C08",
                         "lost_on_drop",
